@@ -34,7 +34,10 @@ THEOREMS = [
     "PV.C11.prec_table_exact",
     "PV.C11.dict_unpack_regression",
     "PV.C11.parse_unparse_partial",
+    "PV.C11.parse_unparse_partial_atX",
     "PV.C11.parse_unparse_partial_at",
+    "PV.C11.inFragment_sub",
+    "PV.C11.inFragX_wf",
     "PV.C11.inFrag_wf",
     "PV.C11.unparse_fixpoint",
     "PV.C11.parse_unparse_fails",
@@ -61,15 +64,28 @@ TRUSTED = [
     "tools/props/c11.py (generators, oracle, table extraction), harness/src/bin/pvh_c11.rs, lean/Drv/C11.lean",
 ]
 PARTIAL = [
-    "parse_unparse_partial covers InFragment (lean/PV/C11/Fragment.lean): Name; every constant (numbers, str, bytes, "
-    "None/True/False/Ellipsis); Attribute; Subscript with one plain index; Call with positional arguments; List, "
-    "Tuple, Set and Dict displays (key:value and **value entries); Await, Yield, YieldFrom; BoolOp, UnaryOp, BinOp "
-    "(all 13 operators incl. right-associative **), Compare, IfExp — nested arbitrarily, of any size, with every "
-    "parenthesisation the unparser produces.  The full statement parse_unparse_full over every WF expression "
-    "additionally has: lambda, comprehensions and generator expressions, keyword / starred / `**` call arguments, "
-    "slices and tuple indices, Starred, NamedExpr, f-strings; it is stated, not proved — those node kinds are covered "
-    "by correspondence and by prec_table_ok / prec_table_exact / unparse_shape / unparse_slot_levels (all slots, all "
-    "kinds, every expression)",
+    "parse_unparse_partial covers InFragmentX (`fx`, lean/PV/C11/Fragment.lean): Name; every constant (numbers, str, "
+    "bytes, None/True/False/Ellipsis); Attribute; Subscript with a plain index, a Slice, a tuple of plain / Slice / "
+    "Starred elements, a bare Starred, a bare NamedExpr; Call with positional, Starred, keyword and `**` arguments "
+    "(in the order unparse.rs prints them) and the bare generator argument; List, Tuple and Set displays with Starred "
+    "elements; Dict displays (key:value and **value entries); Await; Yield (also with a Starred value), YieldFrom; "
+    "BoolOp, UnaryOp, BinOp (all 13 operators incl. right-associative **), Compare, IfExp; Lambda with every parameter "
+    "kind (positional-only `/`, defaults, *args, keyword-only, **kw); ListComp / SetComp / DictComp / GeneratorExp "
+    "with any number of for / if clauses, async, bare-tuple and Starred targets; NamedExpr — nested arbitrarily, of "
+    "any size, with every parenthesisation the unparser produces.  Side conditions beyond the grammar's shape (each is a "
+    "check the parser makes when it builds the node, or what it reads at that position): a lambda's positional "
+    "parameters have no default-less parameter after a defaulted one and all its parameter names are distinct "
+    "(validate_pos_params / validate_arguments), the keyword names of a call are distinct (parse_args), a "
+    "comprehension target is an Expression-level operand, a Starred, or a bare tuple of those (no lambda / conditional "
+    "/ and / or / not / comparison / named expression there: the unparser renders the target at tuple level).  "
+    "The full statement parse_unparse_full over every WF expression additionally has f-strings (JoinedStr / "
+    "FormattedValue): their round trip goes through TEXT (the field text is re-lexed by string.rs), which the "
+    "token-level theorem does not cover; it is stated, not proved — f-strings are covered by correspondence and by "
+    "prec_table_ok / prec_table_exact / unparse_shape / unparse_slot_levels (slot fstringField)",
+    "WF (lean/PV/Expr/Syntax.lean) is laxer than what the parser can produce in three places that InFragmentX makes "
+    "precise (comprehension targets, nesting of slices inside tuple indices, the lambda / call side conditions above), "
+    "so parse_unparse_wf_partial (every WF tree minus the finding shapes) is not claimed; inFragX_wf proves "
+    "InFragmentX ⊆ WF",
     "the theorem is about tokens; text-level facts (spacing, literal spelling, re-lexing) are correspondence only "
     "(constants: C16 / C17 theorems)",
     "fuel: the theorem says every sufficiently large fuel works (existential bound), not the driver's concrete "
@@ -83,16 +99,18 @@ TECHNIQUE = ("Lean 4 theorems over a hand-written model of the unparser and a re
              "correspondence of both with the real crates + behaviourally extracted parenthesisation table")
 LEVEL_TEXT = ("Machine-checked Lean 4: (1) for every (parent slot, child kind) pair the unparser model parenthesises "
               "whenever the grammar cannot derive the child bare — all 1831 admissible pairs, no exception; (2) for every expression the model's parenthesisation is "
-              "exactly that table; (3) for every expression built from names, constants, attribute / index / call "
-              "trailers, list / tuple / set / dict displays (incl. `**` entries), await / yield and the boolean, unary, binary, comparison "
-              "and conditional operators, of any size, the reference parser reads the model's token output back as the "
-              "same tree and rendering is a fixed point. The model and the reference parser are tied to the Rust code "
-              "on every run by byte-exact correspondence on directed, random and CPython-stdlib expression streams "
-              "and by a parenthesisation table extracted from the real unparser.")
+              "exactly that table; (3) for every expression built from names, constants, attribute / subscript / call "
+              "trailers (slices, tuple indices, starred / keyword / `**` arguments, the bare generator argument), list / "
+              "tuple / set / dict displays (starred elements, `**` entries), await / yield, the boolean, unary, binary, "
+              "comparison and conditional operators, lambda with every parameter kind, the four comprehension forms "
+              "(several for / if clauses, async) and named expressions, of any size, the reference parser reads the "
+              "model's token output back as the same tree and rendering is a fixed point. The model and the reference "
+              "parser are tied to the Rust code on every run by byte-exact correspondence on directed, random and "
+              "CPython-stdlib expression streams and by a parenthesisation table extracted from the real unparser.")
 LEVEL_NOTE = ("Trusted: Lean kernel; fidelity of the hand-written unparser model and reference parser as sampled by "
               "correspondence; C16/C17 constant-text models; the LALRPOP automaton is not modelled; the round-trip "
-              "theorem is token-level and does not cover lambda, comprehensions, keyword/starred arguments, slices, "
-              "named expressions and f-strings (stated in parse_unparse_full, checked by correspondence only).")
+              "theorem is token-level and does not cover f-strings (whose fields are re-lexed from text; stated in "
+              "parse_unparse_full, checked by correspondence only).")
 RULE = ("request lines `unparse <hex source>` sent to both the real crates and the Lean model; distinct = distinct "
         "source text; non-trivial = the expression has at least one operator or bracket")
 
@@ -871,6 +889,25 @@ CORPUS += [
 # empty field, (b) the field text is lexed INSIDE the parentheses string.rs wraps it in (line breaks, `#` comments),
 # (c) non-ASCII characters outside string literals are classified by the XID / emoji tables.  Both sides must answer
 # identically, `parse-error` included (this stream is not filtered through CPython; the oracle ignores rejected inputs).
+# constructs of the extended proved fragment (InFragmentX): parameter lists with `/` and defaults, several comprehension
+# clauses with `async`, starred / keyword / `**` arguments in every legal order, slices in tuple indices, named
+# expressions where the unparser parenthesises them
+CORPUS += [
+    "lambda a=1, /, b=2: a", "lambda a, b=1, /, c=2, *d, e, f=3, **g: a", "lambda a, /: a", "lambda a, /, *, b: a",
+    "lambda a=1, /: a", "lambda a, b, /, c: a", "lambda *, a: a", "lambda *a, b=1, **c: a", "lambda a, *, b, **c: a",
+    "lambda a=(lambda b=1, /, c=2: b), /, d=3: a",
+    "[x async for x in y async for z in w]", "[x for x in y async for z in w]", "[x async for x in y for z in w async for u in v]",
+    "{x: y async for x in a if b async for y in c if d if e}", "(x for x in y for z in w async for u in v)",
+    "{x async for x, *y in z for (a, b), c in d}", "f(x async for x in y async for z in w)",
+    "f(*a, k=1, **b, m=2)", "f(k=1, *a)", "f(a, *b, c, *d, k=1)", "f(**a, **b)", "f(*a, *b)", "f(a, k=(x for x in y))",
+    "f((x for x in y), k=1)", "f(a)(*b)(**c)(k=d)", "f(x := 1, *y, k=(z := 2))",
+    "x[a:b, ::c, *d, (e := 1)]", "x[a:b:c]", "x[:]", "x[::]", "x[a:]", "x[:b]", "x[::c]", "x[a::c]", "x[:b:c]", "x[a:b,]",
+    "x[*a, b:c]", "x[*a,]", "x[e := 1]", "x[(a, b):c]", "x[lambda: 1:lambda: 2:lambda: 3]", "x[a if b else c:d]",
+    "x[(yield):(yield a)]", "(yield *a)", "(yield (*a, b))", "[(x := 1), (y := (z := 2))]", "{(x := 1): (y := 2)}",
+    "(x := 1) + (y := 2)", "(x := 1)(y)", "(x := 1).real", "(x := 1)[y]", "lambda: (x := 1)", "[(x := 1) for y in (z := 2) if (w := 3)]",
+    "{*a, *b}", "[*a, b, *c]", "(*a, b)", "[*a or b]", "[*a | b]", "[*(a, b)]", "[*(x := 1)]",
+]
+
 FIDELITY_DIRECTED = [
     # (a)
     "f'{:x}'", "f'{!r}'", "f'{=:x}'", "f'{=}'", "f'{ :x}'", "f'{ = :x}'", "f'{}'", "f'{ }'", "f'{!r:x}'", "f'{ !r}'",
